@@ -46,6 +46,7 @@ class Ctx:
                  "wall_s": round(res["wall"], 1), "actions_taken": acts}
         res["actions"] = acts
         res["violated"] = viol
+        log("mc %s: %d states %.1fs" % (label, res.get("states", 0), res["wall"]))
         if viol:
             if expect_violation and set(viol) <= set([expect_violation] if isinstance(expect_violation, str) else expect_violation):
                 entry["expected_counterexample"] = sorted(set(viol))
@@ -84,7 +85,9 @@ class Ctx:
         (or a known finding, decided by classify(trace, result) -> finding id)"""
         if not traces:
             return []
+        t1 = time.time()
         results, stats = validate_traces(traces, uni.header(), label=self.pid)
+        log("validated %d traces / %d events in %.1fs (%d shards)" % (len(traces), sum(len(t["events"]) for t in traces), time.time() - t1, stats["shards"]))
         self.cov["traces_validated_against_impl"] += len(traces)
         self.cov["events_validated"] += sum(len(t["events"]) for t in traces)
         self.cov["states"] += stats["states"]
@@ -144,6 +147,11 @@ class Ctx:
             print("VIOLATION property=%s replay=%s" % (self.pid, path))
             print("  " + what)
         return 1 if self.violations else 0
+
+
+def log(msg):
+    if os.environ.get("VERIF_VERBOSE", "1") != "0":
+        print("[%s] %s" % (time.strftime("%H:%M:%S"), msg), file=sys.stderr)
 
 
 def strip_cov(out):
